@@ -72,6 +72,11 @@ TOKENS = [
 ]
 
 
+COARSE = {'note#': 'note', 'note-': 'note', 'note-len': 'note-len', 'note-len-dot': 'note-len', 'note-dots': 'note-len',
+          'note-len0': 'note-len0', 'N0': 'N', '<': 'shift', '>': 'shift', 'Xptr': 'X', '=ptr': '=var',
+          'blank': 'sep', 'badP': 'bad', 'badN': 'bad'}
+
+
 def real_expr(ref):
     """BASIC string expression for a reference string (pointers -> VARPTR$)."""
     out = []
@@ -243,7 +248,7 @@ def work_seq(shard):
     for idxs in shard:
         toks = [TOKENS[i] for i in idxs]
         ref = b''.join(t[0] for t in toks)
-        classes = '+'.join(sorted(set(t[1] for t in toks))) or 'empty'
+        classes = '+'.join(sorted(set(COARSE.get(t[1], t[1]) for t in toks))) or 'empty'
         case = {'leg': 'seq', 'tokens': list(idxs)}
         run_case(s, part, 'seq', [ref], classes, case)
         part.classes.add(classes if len(classes) < 40 else classes[:40])
